@@ -1,3 +1,172 @@
 package main
 
-func selftest(args []string) {}
+import (
+	"flag"
+	"fmt"
+	"os"
+	"os/exec"
+	"sort"
+	"strings"
+)
+
+// Self-tests of the simulator itself (DESIGN.md §10):
+//   digest     one process: run the first n trials of a property and print one digest line per trial
+//   diffcases  one process: run generated valid cases of every command form at threads=1 under the
+//              baseline schedule (or, in a realtree build, on the untransformed tree) and print output hashes
+//   selftest   the driver: determinism (same digests across processes and GOMAXPROCS values) and
+//              sim-vs-real agreement; the repository's own suite on the transformed tree is run by check.sh
+
+func digestCmd(args []string) {
+	fs := flag.NewFlagSet("digest", flag.ExitOnError)
+	prop := fs.String("prop", "", "")
+	n := fs.Int("n", 200, "")
+	seed := fs.Uint64("seed", 1, "")
+	fs.Parse(args)
+	p := props[*prop]
+	if p == nil {
+		fatal("unknown property", *prop)
+	}
+	for ord := 0; ord < *n; ord++ {
+		sub := subSeed(*seed, p.ID, ord)
+		t := p.Gen(NewRand(sub), "quick", ord)
+		if t == nil {
+			fmt.Printf("%s %d nil\n", p.ID, ord)
+			continue
+		}
+		t.Prop = p.ID
+		ctx := &Ctx{St: newStats()}
+		f, inc := checkTrial(p, t, ctx)
+		cls := "-"
+		if f != nil {
+			cls = f.Class
+		}
+		if inc != nil {
+			cls = "inconclusive"
+		}
+		fmt.Printf("%s %d %016x %d %s\n", p.ID, ord, ctx.Digest, ctx.St.Evaluations, cls)
+	}
+}
+
+var diffForms = []string{"toma", "samvariants", "variants", "snps", "snps-agg", "closest", "closestn", "updownlist", "topranking"}
+
+func diffCasesCmd(args []string) {
+	fs := flag.NewFlagSet("diffcases", flag.ExitOnError)
+	n := fs.Int("n", 100, "")
+	seed := fs.Uint64("seed", 1, "")
+	fs.Parse(args)
+	tapEnabled = false
+	for i := 0; i < *n; i++ {
+		for _, form := range diffForms {
+			r := NewRand(mix(mix(*seed, hashString(form)), uint64(i)))
+			c := genCmdCase(r, form, caseSize{many: i%10 == 9})
+			rc := P0()
+			rc.Explicit = true
+			res := Exec(c, &rc)
+			fmt.Printf("%s %d %016x %s err=%q out=%016x len=%d\n", form, i, caseHash(c), res.Out.Kind, res.ErrString(), hashBytes(0, res.Stdout), len(res.Stdout))
+		}
+	}
+}
+
+func runLines(env []string, bin string, args ...string) ([]string, error) {
+	c := exec.Command(bin, args...)
+	c.Env = append(os.Environ(), env...)
+	c.Stderr = nil
+	out, err := c.Output()
+	return strings.Split(strings.TrimSpace(string(out)), "\n"), err
+}
+
+func selftest(args []string) {
+	fs := flag.NewFlagSet("selftest", flag.ExitOnError)
+	realBin := fs.String("realbin", "", "harness built with -tags realtree against the untransformed copy")
+	n := fs.Int("n", 150, "trials per property")
+	fs.String("verif", "", "")
+	fs.String("scratch", "", "")
+	fs.Parse(args)
+	self, _ := os.Executable()
+	ok := true
+	ids := []string{}
+	for id := range props {
+		ids = append(ids, id)
+	}
+	sort.Strings(ids)
+	// 1. determinism: every property's first n trials, 6 fresh processes (GOMAXPROCS 1, 4, 16 twice each)
+	type job struct {
+		id  string
+		gmp string
+		out []string
+		err error
+	}
+	var jobs []*job
+	done := make(chan *job)
+	for _, id := range ids {
+		for _, g := range []string{"1", "4", "16", "1", "4", "16"} {
+			j := &job{id: id, gmp: g}
+			jobs = append(jobs, j)
+			go func(j *job) {
+				j.out, j.err = runLines([]string{"GOMAXPROCS=" + j.gmp}, self, "digest", "-prop", j.id, "-n", fmt.Sprint(*n))
+				done <- j
+			}(j)
+		}
+	}
+	for range jobs {
+		<-done
+	}
+	procs, lines := 0, 0
+	byProp := map[string][]*job{}
+	for _, j := range jobs {
+		byProp[j.id] = append(byProp[j.id], j)
+	}
+	for _, id := range ids {
+		js := byProp[id]
+		for _, j := range js {
+			procs++
+			if j.err != nil {
+				fmt.Printf("selftest: digest process for %s failed: %v\n", id, j.err)
+				ok = false
+				continue
+			}
+			lines += len(j.out)
+			if strings.Join(j.out, "\n") != strings.Join(js[0].out, "\n") {
+				ok = false
+				for k := range j.out {
+					if k >= len(js[0].out) || j.out[k] != js[0].out[k] {
+						fmt.Printf("selftest: NONDETERMINISM in %s (GOMAXPROCS %s vs %s): %q vs %q\n", id, js[0].gmp, j.gmp, js[0].out[k], j.out[k])
+						break
+					}
+				}
+			}
+		}
+	}
+	fmt.Printf("selftest determinism: %d properties x %d trials, %d processes (GOMAXPROCS 1/4/16 twice), %d digest lines compared: %v\n", len(ids), *n, procs, lines, ok)
+	// 2. sim vs real on valid inputs at threads=1
+	if *realBin != "" {
+		a, err1 := runLines(nil, self, "diffcases", "-n", "120")
+		b, err2 := runLines(nil, *realBin, "diffcases", "-n", "120")
+		if err1 != nil || err2 != nil {
+			fmt.Println("selftest: diffcases failed:", err1, err2)
+			ok = false
+		}
+		diff := 0
+		for i := range a {
+			if i >= len(b) || a[i] != b[i] {
+				if diff < 5 {
+					x := ""
+					if i < len(b) {
+						x = b[i]
+					}
+					fmt.Printf("selftest: SIM-VS-REAL DIFFERENCE:\n  sim : %s\n  real: %s\n", a[i], x)
+				}
+				diff++
+			}
+		}
+		if diff > 0 || len(a) != len(b) {
+			ok = false
+		}
+		fmt.Printf("selftest sim-vs-real: %d cases over %d command forms, transformed tree under the simulator vs untransformed tree on the Go runtime: %d differences\n", len(a), len(diffForms), diff)
+	}
+	if !ok {
+		fmt.Println("SELFTEST FAILED")
+		os.Exit(2)
+	}
+	fmt.Println("SELFTEST OK")
+}
